@@ -54,6 +54,10 @@ CLAIMED = {
          "Props/C06.v: C06_pair, C06_any_layout, C06_lock_step, C06_box_contents, C06_refuses. The executable model Writers.Combine.combine_tool (mode choice, per-file tasks, offset re-mapping, lock-step level-header rewrite, global header) is compared byte for byte with the output of combine on generated pairs with identical / permuted / unrelated binary layouts and every selection form; the independent reader decides the property (fields, bit-identical boxes, min/max rows, taste incl. box coordinates); pairs on different meshes must be refused before any write.",
          "partial proof: mode choice, offset re-mapping and header rewriting are in the executable model and tied to the code by correspondence only; np.allclose on index ranges exact below 1e5 cells; five defects repaired by fix: commits, see KNOWN_FINDINGS.txt.",
          "DESIGN.md section 3 C06"),
+ 'C11': ("Coq proof (per-file cooking scan on any box list for any recipe function; cooked box = kept components bit for bit followed by the recipe's; recorded min/max are true extrema) + byte-for-byte directory correspondence with the recipe given as a table",
+         "Props/C11.v: C11_scan, C11_box_contents, C11_minmax (recipe is a parameter). Chef(...).cook() is run with generated user recipes (.py files: 1-3 components, arithmetic and position-dependent) x kept-field strings x serial / controlled pool on generated 3D plotfiles with scattered non-monotone layouts; the independent reader checks names (kept then new), kept bit-identical, new = recipe(box) bit for bit, min/max = extrema of the written data, taste with box coordinates; the extracted model (recipe = table of the Python recipe's per-box results) is compared byte for byte.",
+         "partial: mapping of per-file results to box order and header text by correspondence only; Cantera-backed built-in recipes (HRR/ENT/SRi/SDi/RRi) are not exercised by the quick tier and their values are Cantera's (oracle); one defect repaired (field names), see KNOWN_FINDINGS.txt.",
+         "DESIGN.md section 3 C11"),
 }
 PENDING_REASON = "check not built yet in this round (model and theorems planned in DESIGN.md section 3); not claimed until its check runs"
 
